@@ -215,7 +215,7 @@ struct Interp {
             std::string repl;
             int o = -1;
             bool isnull = false;
-            if (n == "splice") { o = other_slot(op.i(4)); if (o >= 0) repl = m[o].b; }
+            if (n == "splice") { o = other_slot(op.i(4)); if (((op.i(4) % 7) + 7) % 7 == 6) { o = cur; ctx.label("splice:the-same-object-on-both-sides"); interesting = true; } if (o >= 0) repl = m[o].b; }
             else { isnull = op.i(4) == 1; if (!isnull) repl = expand(op.s(0), op.i(5, 1)); }
             pos_label("splice", icls);
             Snap before = snap(cur);
@@ -466,7 +466,7 @@ rc::Gen<Op> gen_op() {
         if (k < 41) {
             bool ptr = *range(0, 1) == 1;
             o.name = ptr ? "splice_ptr" : "splice";
-            o.ints = {*gen_poscls(), *range(-20, 20), *gen_poscls(), *range(-20, 20), ptr ? (*range(0, 9) == 0 ? 1 : 0) : *range(0, 2), *gen_rep()};
+            o.ints = {*gen_poscls(), *range(-20, 20), *gen_poscls(), *range(-20, 20), ptr ? (*range(0, 9) == 0 ? 1 : 0) : (*range(0, 7) == 7 ? 6 : *range(0, 2)), *gen_rep()};
             if (ptr) o.strs = {*gen_unit()};
             return o;
         }
